@@ -506,15 +506,18 @@ theorem live_release (p : Parent) (a b : Addr) : (p.release a).live b = (b != a 
     · have : (e.1 == b) = false := by simp [h1]
       simp [this]
 
-theorem live_realloc_move (p : Parent) {a o : Addr} (new : Nat) (h : o ≠ a) (b : Addr) :
-    (p.realloc a new o).live b = (o == b || (b != a && p.live b)) := by
+theorem live_reallocNull (p : Parent) (o new : Nat) (b : Addr) : (p.reallocNull o new).live b = (o == b || p.live b) := by
+  simp [Parent.live, Parent.reallocNull, List.any_cons]
+
+theorem live_realloc_move (p : Parent) {a o : Addr} (old new : Nat) (h : o ≠ a) (b : Addr) :
+    (p.realloc a old new o).live b = (o == b || (b != a && p.live b)) := by
   simp only [Parent.realloc, h, if_false]
   have := live_release p a b
   simp only [Parent.live] at this ⊢
-  simp [List.any_cons, this]
+  split <;> simp [List.any_cons, this]
 
-theorem live_realloc_keep (p : Parent) {a : Addr} (new : Nat) (h : p.live a = true) (b : Addr) :
-    (p.realloc a new a).live b = p.live b := by
+theorem live_realloc_keep (p : Parent) {a : Addr} (old new : Nat) (h : p.live a = true) (b : Addr) :
+    (p.realloc a old new a).live b = p.live b := by
   simp only [Parent.realloc, if_true]
   cases hg : p.get a with
   | none => rfl
@@ -686,10 +689,12 @@ theorem advance_inv (hl : lvl ≠ .none) (hlev : sh.tr.level = lvl)
         simp only [freshAddr, Bool.and_eq_true, bne_iff_ne, ne_eq, Bool.not_eq_true'] at hf
         refine ⟨hlev, ?_⟩
         simp only [attr, hold] at h ⊢
-        refine inv_parent_new hf.1 hf.2 (by simp [live_acquire]) ?_ h
+        refine inv_parent_new hf.1 hf.2 (by simp [live_reallocNull]) ?_ h
         intro b _ _ hlb
-        simp [live_acquire, hlb]
+        simp [live_reallocNull, hlb]
     · rename_i ha0
+      split at ha
+      · cases ha
       split at ha
       · rename_i hoa
         subst hoa
@@ -698,7 +703,7 @@ theorem advance_inv (hl : lvl ≠ .none) (hlev : sh.tr.level = lvl)
         refine ⟨hlev, ?_⟩
         simp only [attr, hold_ne ha0] at h ⊢
         have hla : sh.par.live o = true := (h.liveOK o (by rw [heldL_mid]; simp)).1
-        exact inv_live_congr (fun b _ hlb => by rw [live_realloc_keep _ _ hla]; exact hlb) h
+        exact inv_live_congr (fun b _ hlb => by rw [live_realloc_keep _ _ _ hla]; exact hlb) h
       · rename_i hoa
         split at ha
         · cases ha
@@ -709,10 +714,10 @@ theorem advance_inv (hl : lvl ≠ .none) (hlev : sh.tr.level = lvl)
           simp only [freshAddr, Bool.and_eq_true, bne_iff_ne, ne_eq, Bool.not_eq_true'] at hf
           refine ⟨hlev, ?_⟩
           simp only [attr, hold_ne ha0] at h ⊢
-          refine inv_parent_new hf.1 hf.2 (by simp [live_realloc_move _ _ hoa]) ?_ h
+          refine inv_parent_new hf.1 hf.2 (by simp [live_realloc_move _ _ _ hoa]) ?_ h
           intro b _ hb hlb
           have : b ≠ a := fun hh => hb (by rw [hh])
-          simp [live_realloc_move _ _ hoa, this, hlb]
+          simp [live_realloc_move _ _ _ hoa, this, hlb]
   | ro st k =>
     cases st with
     | load =>
@@ -839,7 +844,7 @@ theorem run_inv_sys {lvl : Level} (hl : lvl ≠ .none) {s : Sys} (h : SysInv lvl
   | nil => exact h
   | cons a r ih => simp only [run, List.foldl_cons] at ih ⊢; exact ih (step_inv_sys hl h a)
 
-theorem init_inv (lvl : Level) (frames : Nat) : SysInv lvl (Sys.init lvl frames) := by
+theorem init_inv (lvl : Level) (frames : Nat) (hr hc : Bool) : SysInv lvl (Sys.init lvl frames hr hc) := by
   refine ⟨by simp [Sys.init, Tracer.new], ?_⟩
   simp only [ShInv, Sys.init, Tracer.new, List.map_nil]
   exact ⟨by simp [Table.bytes], by simp [W], by simp [Table.bytes, ownedBytes], by simp, by simp [heldL],
